@@ -88,6 +88,36 @@ def run(F, rep):
         ok = len(ext) == 1 and fmt(ex.operand(ext[0][1]["args"][1])).endswith("self.buffer")
         rep.ob("C19-G3", "sequence lines are appended verbatim to the record (single extend_from_slice of the line buffer)", ok,
                detail=[fmt(ex.operand(t["args"][1])) for _, t in ext], site=site_of(f, ext[0][1]) if ext else None, key="C19-G3 | append lines")
+        # the raw byte count of a line includes its terminator (LF vs CRLF): it may only be tested against zero (end of input)
+        nraw = 0
+        for bi, b in enumerate(f.blocks):
+            tt = b["term"]
+            if tt["k"] != "switch" or b["cleanup"] or tt["sp"].get("exp"):
+                continue
+            e = ex.operand(tt["discr"])
+            if not contains(e, lambda x: isinstance(x, tuple) and x[0] == "call" and re.search(r"BufRead>?::read_until$", x[1])):
+                continue
+            if isinstance(e, tuple) and e[0] == "discr":
+                continue            # the `?` on the io::Result itself
+            nraw += 1
+            okc = isinstance(e, tuple) and e[0] == "bin" and e[1] in ("Eq", "Ne", "Lt", "Le", "Gt", "Ge") and ("const", 0) in (e[2], e[3])
+            rep.ob("C19-G3", "the raw length of a line (terminator included) is only compared with zero", okc, detail=fmt(e)[:160],
+                   site=site_of(f, tt), key="C19-G3 | raw line length test")
+        rep.floor("C19-G3", nraw, 2, "tests of read_until's byte count (header line, sequence line)")
+        # every sequence line that is read is appended: the append dominates the way back to the next line read
+        if ext:
+            eb = ext[0][0]
+            inner = min([body for h, body in g.loops() if eb in body], key=len, default=None)
+            heads = [h for h, body in g.loops() if body is inner]
+            bad = []
+            if inner is not None:
+                for (a, b2) in g.back_edges():
+                    if b2 in heads and a in inner and not g.dominates(eb, a):
+                        conds = [fmt(c[0]) for c in dominating_conds(f, a, ex) if cond_bool(c[1], c[2]) is True]
+                        if not any("is_empty" in c for c in conds):
+                            bad.append("bb%d" % a)
+            rep.ob("C19-G3", "every sequence line read is appended before the next line is read (no line is skipped by its raw form)", inner is not None and not bad,
+                   detail="back edges not passing the append: %s" % bad, site=site_of(f, ext[0][1]), key="C19-G3 | no skipped line")
         # new record only on first byte '>'
         gt = False
         for bi, b in enumerate(f.blocks):
